@@ -157,8 +157,12 @@ func (p *parserDoer) doParseProfile() {
 			close(p.res)
 			return
 		}
-		p.res <- &model.ParserResponse{
-			ProfileRequest: p.profile,
+		// everything may have been flushed by onProfile already; an empty profile would still
+		// append one row to the array columns and none to the others
+		if len(p.profile.TimestampNs) > 0 {
+			p.res <- &model.ParserResponse{
+				ProfileRequest: p.profile,
+			}
 		}
 
 		close(p.res)
@@ -263,8 +267,7 @@ func (p *parserDoer) onProfile(timestampNs uint64,
 
 	if p.profile.Size > 1*1024*1024 {
 		p.res <- &model.ParserResponse{
-			SpansRequest:      p.spans,
-			SpansAttrsRequest: p.attrs,
+			ProfileRequest: p.profile,
 		}
 		p.resetProfile()
 	}
